@@ -58,8 +58,57 @@ class C20(fw.Prop):
 
     # ------------------------------------------------------------------ case builders
     def make_case(self, d):
+        case = self.make_case_(d)
+        if d["op"].endswith("_to") or d["op"] in ("frame_range", "fmt_to"):
+            # whether a value is taken or refused does not depend on what the process has been through (a link that failed to
+            # parse a frame, ...): the library is put through that first
+            inner = case.impl
+
+            def primed():
+                fw.prime_failed_parses()
+                return inner()
+            case.impl = primed
+        return case
+
+    def make_case_(self, d):
         op = d["op"]
         tags = (op,)
+        if op == "in_get":
+            # invoke-id-and-priority byte and OBIS code where they live: inside a GET request, decoded after the decoder has
+            # been through a request it reads only partly (one with a selective-access descriptor) and one cut short
+            v, obis = d["v"], d["obis"]
+
+            def impl():
+                import datetime
+                from dlms_cosem import cosem, enumerations as en
+                from dlms_cosem.protocol import xdlms
+                from dlms_cosem.protocol.xdlms import selective_access as sa
+                from dlms_cosem.protocol.xdlms.invoke_id_and_priority import InvokeIdAndPriority as I
+                sel = xdlms.GetRequestNormal(
+                    cosem.CosemAttribute(en.CosemInterface.PROFILE_GENERIC, cosem.Obis(1, 0, 99, 1, 0, 255), 2),
+                    access_selection=sa.RangeDescriptor(sa.CaptureObject(cosem.CosemAttribute(en.CosemInterface.CLOCK, cosem.Obis(0, 0, 1, 0, 0, 255), 2), 0),
+                                                        datetime.datetime(2020, 1, 1), datetime.datetime(2020, 1, 6))).to_bytes()
+                plain = bytes([0xC0, 0x01, v, 0x00, 0x03]) + bytes(obis) + bytes([0x02, 0x00])
+                for poison in (sel, plain[:7], plain[:3], sel[:20]):
+                    try:
+                        xdlms.GetRequestNormal.from_bytes(poison)
+                    except fw._Timeout:
+                        raise
+                    except Exception:  # noqa
+                        pass
+                g = xdlms.GetRequestNormal.from_bytes(plain)
+                want = I.from_bytes(bytes([v]))
+                got = g.invoke_id_and_priority
+                out = "ok in-get"
+                if (got.invoke_id, got.confirmed, got.high_priority) != (want.invoke_id, want.confirmed, want.high_priority):
+                    out += f" invoke-byte-{v:#04x}-decodes-to:{got!r}"
+                if tuple(g.cosem_attribute.instance.to_bytes()) != tuple(obis):
+                    out += f" obis-decodes-to:{g.cosem_attribute.instance!r}"
+                canonical = plain[:2] + want.to_bytes() + plain[3:]          # (bits 4-5 of the byte are reserved and not kept)
+                if g.to_bytes() != canonical:
+                    out += f" written-back-as:{g.to_bytes().hex()}"
+                return out
+            return fw.Case("echo in-get", impl, "prop", d, tags)
         if op == "conf_enc":
             mask = d["mask"]
 
@@ -337,6 +386,13 @@ class C20(fw.Prop):
 
     def cases(self, rng, tier, deep):
         mk = self.make_case
+        for v in range(256):
+            yield mk({"op": "in_get", "v": v, "obis": [1, 0, 1, 8, 0, 255]})
+        for pos in range(6):
+            for val in (0, 1, 127, 128, 254, 255):
+                o = [1, 0, 1, 8, 0, 255]
+                o[pos] = val
+                yield mk({"op": "in_get", "v": 0xC1, "obis": o})
         for which in ("i-ssn", "i-rsn", "rr-rsn"):
             for v in (8, 9, 15, 16, 17, 255, 256, 1000, -1, -8):
                 yield mk({"op": "frame_range", "which": which, "v": v})
